@@ -163,7 +163,7 @@ fn caps_chain(
     }
 }
 
-// one random member of family (fi mod 3): 0 castling, 1 en passant, 2 promotion
+// one random member of family (fi mod 4): 0 castling, 1 en passant, 2 promotion, 3 a blocked line from a slider to the enemy king
 pub fn family_member(t: &Tables, rng: &mut StdRng, fi: usize) -> Option<BoardState> {
     for _try in 0..200 {
         let mut pcs: Vec<(u32, u32)> = Vec::new();
@@ -178,7 +178,67 @@ pub fn family_member(t: &Tables, rng: &mut StdRng, fi: usize) -> Option<BoardSta
             true
         };
         let stm = rng.gen_range(0..2u32);
-        match fi % 3 {
+        match fi % 4 {
+            3 => {
+                // a line from a slider of the side to move to the enemy king with exactly ONE man on it (own: it can move
+                // away - discovered and double checks; enemy: it can be captured by a man that then stands on the line in
+                // front of the slider), a few men of both sides around: the replies to such checks are where "only the
+                // king can move" / "only the checker can be captured" shortcuts go wrong
+                let c = stm;
+                let ks = rng.gen_range(1..=64u32);
+                let dirs: [(i32, i32); 8] = [(1, 0), (-1, 0), (0, 1), (0, -1), (1, 1), (1, -1), (-1, 1), (-1, -1)];
+                // half of the members are the pawn sub-case below (diagonal towards the attacker's side, blocker next to the king)
+                let pawn_case = rng.gen_bool(0.5);
+                let (df, dr) = if pawn_case { (if rng.gen_bool(0.5) { 1 } else { -1 }, if c == 0 { -1 } else { 1 }) } else { dirs[rng.gen_range(0..8)] };
+                let at = |k: i32| -> Option<u32> {
+                    let f = ((ks - 1) % 8) as i32 + df * k;
+                    let r = ((ks - 1) / 8) as i32 + dr * k;
+                    if (0..8).contains(&f) && (0..8).contains(&r) { Some((8 * r + f + 1) as u32) } else { None }
+                };
+                let bd = if pawn_case { 1 } else { rng.gen_range(1..=3) };
+                let sd = bd + rng.gen_range(1..=3);
+                let (bsq, ssq) = match (at(bd), at(sd)) {
+                    (Some(b), Some(s2)) => (b, s2),
+                    _ => continue,
+                };
+                put(&mut pcs, &mut used, ks, 6 + 6 * (1 - c));
+                let slider = if df == 0 || dr == 0 { [4u32, 5][rng.gen_range(0..2)] } else { [3u32, 5][rng.gen_range(0..2)] };
+                put(&mut pcs, &mut used, ssq, slider + 6 * c);
+                let blocker_own = !pawn_case && rng.gen_bool(0.5);
+                let bkind = [1u32, 1, 2, 3, 4][rng.gen_range(0..5)];
+                put(&mut pcs, &mut used, bsq, bkind + 6 * (if blocker_own { c } else { 1 - c }));
+                // the squares between stay empty
+                for k in 1..sd {
+                    if k != bd {
+                        if let Some(q) = at(k) {
+                            used.insert(q);
+                        }
+                    }
+                }
+                // a third of the members: the blocker is an enemy man right next to the king on a diagonal and an own pawn
+                // stands ready to capture it - the pawn then gives check from the slider's line, with the slider behind it
+                if !blocker_own && bd == 1 && df != 0 && dr != 0 && (dr == 1) == (c == 1) {
+                    let (bf, br) = (((bsq - 1) % 8) as i32, ((bsq - 1) / 8) as i32);
+                    let pr = br + if c == 0 { -1 } else { 1 };
+                    let pf = bf - df; // the other diagonal neighbour (bf + df) lies on the slider's line
+                    if (0..8).contains(&pf) && (1..7).contains(&pr) {
+                        put(&mut pcs, &mut used, (8 * pr + pf + 1) as u32, 1 + 6 * c);
+                    }
+                }
+                put(&mut pcs, &mut used, rng.gen_range(1..=64), 6 + 6 * c);
+                for _ in 0..rng.gen_range(2..=4) {
+                    // own men near the blocker (they may capture it), enemy men anywhere (they may capture or interpose)
+                    let near = at(bd).map(|q| {
+                        let f = ((q - 1) % 8) as i32 + rng.gen_range(-2..=2);
+                        let r = ((q - 1) / 8) as i32 + rng.gen_range(-2..=2);
+                        if (0..8).contains(&f) && (0..8).contains(&r) { (8 * r + f + 1) as u32 } else { q }
+                    }).unwrap_or(1);
+                    put(&mut pcs, &mut used, near, [1u32, 1, 2, 3][rng.gen_range(0..4)] + 6 * c);
+                }
+                for _ in 0..rng.gen_range(2..=4) {
+                    put(&mut pcs, &mut used, rng.gen_range(1..=64), [1u32, 2, 2, 3, 4, 5][rng.gen_range(0..6)] + 6 * (1 - c));
+                }
+            }
             0 => {
                 // kings at home, a random non-empty subset of corner rooks with their rights, 1-3 random officers;
                 // in half of the members only the side to move keeps rights and the other king stands anywhere
